@@ -41,4 +41,28 @@ CLAIMS["C07"] = {
     "design_ref": "DESIGN.md §4 C07",
 }
 
+CLAIMS["C13"] = {
+    "technique": "construction-site / provenance / who-may-call analysis over resolved MIR",
+    "text": "Decides the safety sentence (never more tokens than max_conns) structurally, given a semaphore that never hands out more "
+            "than its permits: Token has one construction site whose permit field is the awaited acquire_arc on the runner's semaphore "
+            "(R13.1); the semaphore is created once with config.max_conns.get() and every Runner (incl. Clone) shares it (R13.2); no leak "
+            "primitive exists anywhere in the crate and the permit field is never touched, Token is not Clone (R13.3, with a positive "
+            "fixture proving the matcher fires). Does NOT decide sentences 2-3 (immediate completion, wake-ups of queued requests, "
+            "cancellation): those are async-lock's behaviour.",
+    "note": "async_lock::Semaphore / SemaphoreGuardArc semantics trusted; get_token having a single suspension point is checked as a necessary condition of 'completes immediately'.",
+    "design_ref": "DESIGN.md §4 C13",
+}
+CLAIMS["C14"] = {
+    "technique": "ordering (must-dataflow) rules on single-function CFGs + cancellation-region analysis on the event graph",
+    "text": "Decides the obligations of the no-lost-wakeup argument and the cancellation structure, for every path / interleaving-independent: "
+            "Drop of the shared wait-group value wakes unconditionally and uses the same waker field that poll registers (R14.1); the shutdown "
+            "future registers the waker before its upgraded Arc can die, None=>Ready, Some=>Pending (R14.2); shutdown consumes the runner, "
+            "notifies usize::MAX listeners on every path before returning a future that only holds a Weak (R14.3); in run() the only "
+            "cancellable region is select(stop, preamble) with stop first, handler and close() lie outside it and the stop arm returns with "
+            "no further I/O (R14.4). The implication to the statement is the hand argument in DESIGN.md; scheduler liveness and the "
+            "linearizability of AtomicWaker/event-listener are trusted.",
+    "note": "futures_util::future::select polls its first argument first (0.3.31, read in the registry source); AtomicWaker register/wake linearizable.",
+    "design_ref": "DESIGN.md §4 C14",
+}
+
 PENDING_REASON = "rules for this property are not built yet (build in progress; DESIGN.md §7 gives the order)"
